@@ -20,6 +20,7 @@ import (
 	"strings"
 	"time"
 
+	"github.com/aws/aws-sdk-go-v2/service/s3/types"
 	"github.com/gofiber/fiber/v2"
 	"github.com/versity/versitygw/auth"
 )
@@ -35,6 +36,29 @@ type EventMeta struct {
 	ObjectSize  int64
 	ObjectETag  *string
 	VersionId   *string
+	// DeleteObjects: the entries of the request reported as failed,
+	// no event is sent for these
+	FailedObjects []types.Error
+}
+
+// failed reports whether the DeleteObjects entry is among the failed ones
+func (m EventMeta) failed(key, versionId *string) bool {
+	for _, e := range m.FailedObjects {
+		if e.Key == nil || key == nil || *e.Key != *key {
+			continue
+		}
+		var ev, v string
+		if e.VersionId != nil {
+			ev = *e.VersionId
+		}
+		if versionId != nil {
+			v = *versionId
+		}
+		if ev == v {
+			return true
+		}
+	}
+	return false
 }
 
 type EventSchema struct {
